@@ -221,6 +221,38 @@ def gff_case(seqid, source, typ, attrs):
     return None
 
 
+def gff_annotation(features):
+    annot = Annotation(features)
+    f = gff.GFFFile()
+    gff.set_annotation(f, annot, seqid="chr1", source="src")
+    g = gff.GFFFile.read(io.StringIO(text_of(f)))
+    back = gff.get_annotation(g)
+
+    def norm(an):
+        out = set()
+        for ft in an:
+            q = {k: v for k, v in ft.qual.items()}
+            out.add((ft.key, frozenset((l.first, l.last, l.strand) for l in ft.locs), frozenset(q.items())))
+        return out
+    if norm(back) != norm(annot):
+        return f"read {sorted(map(str, norm(back)))}, wrote {sorted(map(str, norm(annot)))}"
+    return None
+
+
+FW, RV = Location.Strand.FORWARD, Location.Strand.REVERSE
+GFF_FEATS = [
+    [Feature("gene", [Location(1, 10, FW)], {"ID": "g1"})],
+    [Feature("gene", [Location(1, 10, RV)], {"ID": "g1", "Name": "n"})],
+    [Feature("CDS", [Location(1, 10, FW), Location(20, 30, FW)], {"ID": "c1"})],
+    [Feature("CDS", [Location(1, 10, RV), Location(20, 30, RV)], {"ID": "c1"})],
+    [Feature("mRNA", [Location(1, 10, FW), Location(20, 30, RV)], {"ID": "rna0"})],
+    [Feature("mRNA", [Location(1, 10, RV), Location(20, 30, FW), Location(40, 45, RV)], {"ID": "rna1", "Note": "trans spliced"})],
+    [Feature("gene", [Location(5, 8, FW)], {"ID": "a"}), Feature("exon", [Location(6, 7, RV)], {"ID": "b"})],
+]
+for feats in GFF_FEATS:
+    R.check("GFF3 annotation round trip (locations with strand, qualifiers)", "gff annotation", {"features": repr(feats)},
+            lambda feats=feats: gff_annotation(feats))
+
 for v in STR:
     R.check("GFF3 round trip", f"gff seqid {v!r}", {"seqid": v}, lambda v=v: gff_case(v, "src", "gene", {"ID": "a"}))
     R.check("GFF3 round trip", f"gff source {v!r}", {"source": v}, lambda v=v: gff_case("chr", v, "gene", {"ID": "a"}))
